@@ -34,6 +34,7 @@ type e2eScript struct {
 	gaps   []time.Duration // pause after each command
 	dropAt int             // drop the link after this command index (-1 never)
 	mode   string          // fresh | resume-continue | resume-fullresync
+	sameID bool            // resume-fullresync: the source kept its run id but lost the backlog (new offset under the old id)
 	pre    []int           // keep-alive newlines in front of each command
 	// shard slot range of the sync node (-1,-1: not a cluster shard): the checkpoint key must hash inside it (C15)
 	slotL, slotR int
@@ -69,12 +70,16 @@ func (s e2eScript) String() string {
 	if s.rdbSplit > 0 && s.mode != "resume-continue" {
 		extra += fmt.Sprintf(" rdb-split@%d", s.rdbSplit)
 	}
+	if s.mode == "resume-fullresync" && s.sameID {
+		extra += " same-run-id"
+	}
 	return fmt.Sprintf("mode=%s%s start=%d [%s]", s.mode, extra, s.start, strings.Join(parts, " ; "))
 }
 
 func drawE2E(t *rapid.T) e2eScript {
 	s := e2eScript{dropAt: -1, slotL: -1, slotR: -1}
 	s.mode = rapid.SampledFrom([]string{"fresh", "fresh", "resume-continue", "resume-fullresync"}).Draw(t, "mode")
+	s.sameID = rapid.IntRange(0, 2).Draw(t, "sameRunID") == 1
 	s.start = rapid.SampledFrom([]int64{0, 999, 1 << 33}).Draw(t, "start")
 	if s.mode != "fresh" && s.start == 0 {
 		s.start = 999
@@ -220,15 +225,18 @@ func runE2E(s e2eScript, id int, loader bool) (sig, msg string) {
 	oldOffset := s.start
 	if s.mode == "resume-fullresync" {
 		oldRun, oldOffset = "01d01d01d01d01d01d01d01d01d01d01d01d01d0", s.start/2
+		if s.sameID {
+			oldRun = c08RunID
+			if oldOffset == s.start {
+				oldOffset = s.start + 977
+			}
+		}
 	}
 	if s.mode != "fresh" {
 		putOldCheckpoint(firstDB, oldRun, oldOffset)
 	}
 	defer func() {
-		src.Default = &fsrc.Plan{Refuse: true}
-		for _, c := range src.ConnList() {
-			c.Close()
-		}
+		src.Silence()
 		tgt.CloseConns()
 		// the source listener is left open on purpose: the syncer's offset poller (10 s ticker) dereferences a
 		// nil connection when a reconnect to a vanished source fails, which would kill the whole test process
@@ -508,7 +516,11 @@ func e2eBatch(t *rapid.T, prop string) {
 		scripts[i] = drawE2E(t)
 		if prop == "C08" {
 			// every batch holds every start mode (a batch has at least four runs)
-			scripts[i].mode = []string{"fresh", "resume-continue", "resume-fullresync", "fresh"}[i%4]
+			scripts[i].mode = []string{"fresh", "resume-continue", "resume-fullresync", "resume-fullresync"}[i%4]
+			scripts[i].sameID = i%4 == 3
+			if scripts[i].mode != "fresh" && scripts[i].start == 0 {
+				scripts[i].start = 999
+			}
 		}
 		if prop == "C14" {
 			// only resumed runs, half of them continued streams that do not begin with a SELECT
